@@ -1,5 +1,6 @@
 import Pi2.DeserializeThm
 import Pi2.Props.C05
+import Pi2.SerTie
 /-!
 # C14 — binary round trip: deserialising a serialised proof replays it
 
@@ -51,5 +52,12 @@ theorem deserialize_replays_history (n k : Nat) (cs : List Call) (s s' : PySt)
 
 /-- the opcode tables of serializer (instruction.py) and checker (lib.rs) are the model's -/
 theorem opcodes_tied : Gen.rustOpcodes = C05.opcodeTable ∧ Gen.pyOpcodes = C05.opcodeTable := C05.opcodes_tied
+
+/-- what `SerializingInterpreter` writes, as written in `serializing_interpreter.py` (translated on every run), is the
+byte encoding of what the model's `emit1` emits, call by call -/
+theorem serializer_bytes_tied (n : Nat) (s : PySt) (c : Call) (is : List Instr)
+    (h : PySt.emit1 n s c = some (some is)) :
+    Gen.Ser.translated = true ∧ ∃ memIdx, encode is = SerTie.bytesOfCall s memIdx c :=
+  ⟨SerTie.translated, SerTie.emit_is_serializer n s c is h⟩
 
 end C14
